@@ -50,7 +50,11 @@ def models(tier):
     two += [("ans", 0), ("ans", 1), ("ans", 2), ("tick", 2)]
     m4 = monitors.ScenarioModel("two-ready-connections", BASE, two, [monitors.AnswerMonitor], max_socks=2,
                                 prelude=[("accept",), ("m", 0, "cer_p0"), ("accept",), ("m", 1, "cer_p1")])
-    return [m1, m1r, m1n, m1w, m2, m3, m4]
+    out = [m1, m1r, m1n, m1w, m2, m3, m4]
+    # a second deterministic scheduling policy (the I/O thread runs only when nothing else can): thorough tier
+    if tier == "thorough":
+        out = monitors.with_io_last(out)
+    return out
 
 
 def run(tier):
